@@ -734,8 +734,11 @@ def check_C12(run):
                               {"script": ["uci"] + sc, "reports": last, "repro": "printf 'uci\\n" + "\\n".join(sc) + "\\n' | " + rel})
     run.cov["traces_validated_against_impl"] = len(reqs) + len(pj)
     run.sample({"request": reqs[0], "implementation": impl[0][:300]})
-    run.cov["explanation"] = ("PARTIAL proof: the mated child returns -MATE_SCORE+ply on the model (lemma listed); the root-level statement for "
-                              "every table content is checked by the runs above")
+    run.cov["explanation"] = ("proof on the model (C12_mate_in_one_is_played): for every table with bounded scores, history and depth limit >= 1, a root with a mating "
+                              "move, clock below 99, the mated position no repetition and no table entry under the mated position's key (none is ever written: "
+                              "mated nodes are not stored; only a key collision could) answers with a mating move and reports MATE_SCORE - 1 at every iteration; "
+                              "a value strictly inside the window is honest (C12_value_inside_window_is_honest); the premise on the key is needed "
+                              "(C12_misleading_entry_under_the_mated_key); tie: the runs above compare the real searches (fresh and pre-filled tables) with the model's")
 
 
 # ====================================================================== C19
